@@ -244,6 +244,9 @@ type FNode struct {
 	FStr string
 	FBin []byte
 	FP   *Inner
+	KM   map[*Inner]int32 // a map whose keys are objects
+	IV   []Inner          // []T and []*T of one struct share a list type name
+	IP   []*Inner
 	A    *FNode
 	B    *FNode
 	MLs  map[string][]*FNode // slices met inside a container before the plain slice field below
